@@ -109,9 +109,9 @@ fn lex_case(out: &mut Out, src: &str) -> bool {
     }
 }
 
-const EDITS: [&str; 10] = [
+const EDITS: [&str; 11] = [
     "trailing_comment", "trailing_space", "blank_line", "comment_line", "crlf_gaps", "break_in_brackets",
-    "final_newline_toggle", "reindent_2", "reindent_tab", "crlf_whole_file",
+    "final_newline_toggle", "reindent_2", "reindent_tab", "crlf_whole_file", "eof_blank_tail",
 ];
 
 fn apply_edit(ps: &[Piece], kind: &str, rng: &mut Rng) -> Option<String> {
@@ -154,6 +154,16 @@ fn apply_edit(ps: &[Piece], kind: &str, rng: &mut Rng) -> Option<String> {
             for p in q.iter_mut() {
                 p.gap = p.gap.replace('\n', "\r\n");
             }
+        }
+        "eof_blank_tail" => {
+            // blanks after the last line break and no line break after them (any width: narrower, equal to or wider
+            // than the innermost open block)
+            let mut t = render(&q);
+            if !t.ends_with('\n') {
+                t.push('\n');
+            }
+            t.push_str(["", " ", "  ", "    ", "      ", "        ", "            ", "\t", "\t\t", " \t"][rng.below(10) as usize]);
+            return Some(t);
         }
         "crlf_whole_file" => {
             return Some(render(&q).replace('\n', "\r\n"));
